@@ -14,6 +14,7 @@ import (
 
 const wsAll = "ALL"
 const wsAlloc = "nextRef"
+const wsFreshAll = "FRESH-ALL" // may allocate and initialise new objects of any type
 
 // writeSet computes syntactically the heaps a function (and its static
 // callees) may write. "ALL" stands for unknown effects.
@@ -83,6 +84,7 @@ func (e *Exec) specWrites(fn *ssa.Function, spec *FuncSpec, ws map[string]bool) 
 	if spec.Pure {
 		if spec.Allocs {
 			ws[wsAlloc] = true
+			ws[wsFreshAll] = true
 		}
 		return
 	}
@@ -90,10 +92,13 @@ func (e *Exec) specWrites(fn *ssa.Function, spec *FuncSpec, ws map[string]bool) 
 		for _, w := range spec.Writes {
 			ws[w] = true
 		}
-		return
+		if !spec.HasMod {
+			return
+		}
 	}
 	if spec.HasMod {
 		ws[wsAlloc] = true
+		ws[wsFreshAll] = true
 		for _, h := range e.modHeapsSyntactic(fn, spec) {
 			ws[h] = true
 		}
@@ -413,13 +418,37 @@ func (e *Exec) havocLoop(fr *frame, pre *State, h *ssa.BasicBlock, ord int) *Sta
 			st.nextRef = e.ctx.fresh("nextRef", sInt)
 			e.ctx.assume(imp(st.pc, le(pre.nextRef, st.nextRef)))
 		}
+		targets, unknown := e.loopStoreTargets(fr, pre, h, cells)
 		for _, name := range names {
-			if name == wsAlloc {
+			if name == wsAlloc || name == wsFreshAll {
 				continue
 			}
 			old, nw := e.havocHeapTyped(st, name, st.nextRef)
 			e.loopFrameAssume(fr, st, pre, name, old, nw, ord)
+			if !unknown[name] {
+				// every store of the loop to this heap goes to one of a few
+				// loop-invariant objects or to objects allocated inside the loop
+				tg := targets[name]
+				preRef := pre.nextRef
+				keep := func(r string) string {
+					c := lt(app("root", r), preRef)
+					for _, t := range tg {
+						c = and(c, not(eq(r, t)))
+					}
+					return c
+				}
+				e.frameAssume(st.pc, name, nw, old, keep)
+			}
 		}
+	}
+	if ws[wsFreshAll] && !ws[wsAll] {
+		explicit := map[string]string{}
+		for name := range ws {
+			if t, ok := st.heaps[name]; ok {
+				explicit[name] = t
+			}
+		}
+		e.freshAllHavoc(st, pre, explicit)
 	}
 	for a := range cells {
 		if v, ok := st.cells[a]; ok {
@@ -761,10 +790,32 @@ func (e *Exec) havocWrites(fr *frame, st *State, ws map[string]bool, mods []heap
 	}
 	names := make([]string, 0, len(ws))
 	for k := range ws {
+		if k == wsFreshAll {
+			continue
+		}
 		names = append(names, k)
 	}
 	sort.Strings(names)
 	preRef := st.nextRef
+	var prevState *State
+	if ws[wsFreshAll] {
+		prevState = st.clone()
+		// make sure explicit heaps are registered before they are re-versioned
+	}
+	defer func() {
+		if prevState != nil {
+			explicit := map[string]string{}
+			for _, n := range names {
+				if n == wsAlloc {
+					continue
+				}
+				if t, ok := st.heaps[n]; ok {
+					explicit[n] = t
+				}
+			}
+			e.freshAllHavoc(st, prevState, explicit)
+		}
+	}()
 	hasMod := spec != nil && (spec.HasMod || spec.Pure || len(spec.Writes) > 0)
 	if ws[wsAlloc] {
 		st.nextRef = e.ctx.fresh("nextRef", sInt)
@@ -976,4 +1027,155 @@ func bindResults(vars map[string]Val, callee *ssa.Function, sig *types.Signature
 	if len(res) == 1 {
 		vars["result"] = res[0]
 	}
+}
+
+// loopStoreTargets determines, per heap, the loop-invariant objects that the
+// stores inside the loop headed by h may write; unknown[heap] is set when a
+// store (or a call) to that heap cannot be attributed to such an object.
+func (e *Exec) loopStoreTargets(fr *frame, pre *State, h *ssa.BasicBlock, cells map[*ssa.Alloc]bool) (map[string][]string, map[string]bool) {
+	body := fr.loops.body[h]
+	targets := map[string][]string{}
+	unknown := map[string]bool{}
+	// invariantRef resolves a pointer/slice/map SSA value to a term that is the
+	// same in every iteration, or "" if it cannot; fresh=true means the object
+	// is allocated inside the loop.
+	var invariant func(v ssa.Value) (term string, fresh bool, ok bool)
+	invariant = func(v ssa.Value) (string, bool, bool) {
+		switch x := v.(type) {
+		case *ssa.Alloc:
+			if body[x.Block()] {
+				return "", true, true
+			}
+			if val, ok := fr.vals[x]; ok && val.T != "" {
+				return val.T, false, true
+			}
+			return "", false, false
+		case *ssa.MakeSlice, *ssa.MakeMap:
+			if in, ok := v.(ssa.Instruction); ok && body[in.Block()] {
+				return "", true, true
+			}
+		case *ssa.UnOp:
+			if x.Op == token.MUL {
+				if a, ok := x.X.(*ssa.Alloc); ok && !a.Heap && !cells[a] && !body[a.Block()] {
+					if val, ok := pre.cells[a]; ok && val.T != "" {
+						return val.T, false, true
+					}
+				}
+			}
+		case *ssa.Parameter, *ssa.FreeVar:
+			if val, ok := fr.vals[v]; ok && val.T != "" {
+				return val.T, false, true
+			}
+		}
+		if in, ok := v.(ssa.Instruction); ok && !body[in.Block()] {
+			if val, ok := fr.vals[v]; ok && val.T != "" && val.Bad == "" {
+				return val.T, false, true
+			}
+		}
+		return "", false, false
+	}
+	add := func(heap string, v ssa.Value, isSlice bool) {
+		t, fresh, ok := invariant(v)
+		if !ok {
+			unknown[heap] = true
+			return
+		}
+		if fresh {
+			return
+		}
+		if isSlice {
+			t = slRef(t)
+		}
+		targets[heap] = append(targets[heap], t)
+	}
+	var addStruct func(t types.Type, v ssa.Value)
+	addStruct = func(t types.Type, v ssa.Value) {
+		ws := map[string]bool{}
+		e.structHeaps(t, ws)
+		for hname := range ws {
+			// embedded structs live at emb(ref, i): only handle flat structs
+			add(hname, v, false)
+		}
+		st := t.Underlying().(*types.Struct)
+		for i := 0; i < st.NumFields(); i++ {
+			if isStruct(st.Field(i).Type()) {
+				ws2 := map[string]bool{}
+				e.structHeaps(st.Field(i).Type(), ws2)
+				for hname := range ws2 {
+					unknown[hname] = true
+				}
+			}
+		}
+	}
+	for b := range body {
+		for _, in := range b.Instrs {
+			switch x := in.(type) {
+			case *ssa.Store:
+				switch a := x.Addr.(type) {
+				case *ssa.Alloc:
+					t := a.Type().Underlying().(*types.Pointer).Elem()
+					if isStruct(t) {
+						addStruct(t, a)
+					} else if isArray(t) {
+						add(e.elemHeap(t.Underlying().(*types.Array).Elem()), a, false)
+					} else if a.Heap {
+						add(e.boxHeap(t), a, false)
+					}
+				case *ssa.FieldAddr:
+					pt := a.X.Type().Underlying().(*types.Pointer).Elem()
+					ft := pt.Underlying().(*types.Struct).Field(a.Field).Type()
+					if ia, ok := a.X.(*ssa.IndexAddr); ok {
+						// field of a struct stored in a slice element
+						if sl, ok := ia.X.Type().Underlying().(*types.Slice); ok {
+							add(e.elemHeap(sl.Elem()), ia.X, true)
+						} else {
+							ws := map[string]bool{}
+							e.addrWrites(a, ws)
+							for k := range ws {
+								unknown[k] = true
+							}
+						}
+						continue
+					}
+					if isStruct(ft) {
+						ws := map[string]bool{}
+						e.structHeaps(ft, ws)
+						for k := range ws {
+							unknown[k] = true
+						}
+						continue
+					}
+					add(e.fieldHeap(pt, a.Field), a.X, false)
+				case *ssa.IndexAddr:
+					switch u := a.X.Type().Underlying().(type) {
+					case *types.Slice:
+						add(e.elemHeap(u.Elem()), a.X, true)
+					case *types.Pointer:
+						add(e.elemHeap(u.Elem().Underlying().(*types.Array).Elem()), a.X, false)
+					}
+				default:
+					ws := map[string]bool{}
+					e.addrWrites(x.Addr, ws)
+					for k := range ws {
+						unknown[k] = true
+					}
+				}
+			case *ssa.MapUpdate:
+				md, mv := e.mapHeaps(x.Map.Type().Underlying().(*types.Map))
+				add(md, x.Map, false)
+				add(mv, x.Map, false)
+			case *ssa.Alloc, *ssa.MakeSlice, *ssa.MakeMap, *ssa.MakeChan, *ssa.DebugRef:
+				// allocation inside the loop initialises fresh objects only
+			case *ssa.Convert:
+				// fresh slice
+			case *ssa.Call, *ssa.Defer, *ssa.Go:
+				ws := map[string]bool{}
+				e.instrWrites(fr.fn, in, ws)
+				for k := range ws {
+					unknown[k] = true
+				}
+			}
+		}
+	}
+	return targets, unknown
 }
